@@ -80,6 +80,19 @@ def run(ck):
     ck.add_tlc(r2, f"Jinja.tla name-selected autoescape ({len(sel)} template sets)")
     import jinja2
     jrun.conformance(ck, sel, obs2, [{"label": "select_autoescape", "opts": {"autoescape": "SELECT"}}], fingerprint)
+    # (a') runtime-decided autoescaping: autoescape blocks (constant and computed), macros, blocks and
+    # set blocks defined under one mode and used under the other, blocks written inside autoescape blocks
+    reg = jgen.random_cases(ck.seed * 31 + 20, 260 if quick else 5000, start_id=len(cases) + len(sel) + 1, auto_mode="mixed",
+                            features=("loopcontrols", "regions"), size=9)
+    reg += jgen.inherit_cases(ck.seed * 31 + 21, 160 if quick else 3000, start_id=len(cases) + len(sel) + len(reg) + 1, rich=True)
+    for c in reg:
+        c.pop("emit_values", None)
+    obs3, r3 = jrun.spec_results("C15", reg, name="regions", timeout=3000)
+    ck.add_tlc(r3, f"Jinja.tla autoescape blocks ({len(reg)} programs), invariant C15_NoLeak with off-mode origin tags")
+    jrun.conformance(ck, reg, obs3, [{"label": "regions"}, {"label": "regions/async", "opts": {"enable_async": True}, "how": "render_async"},
+                                     {"label": "regions/unoptimized", "opts": {"optimized": False}}], fingerprint)
+    ck.extra["programs_with_autoescape_blocks"] = sum(1 for c in reg if any(n.get("k") == "autoescape" for t in c["tpls"].values()
+                                                                              for n in J.walk(t["body"])))
     # (b) scanner over all built-in filters
     try:
         from . import c15_scan
